@@ -194,6 +194,32 @@ Proof.
           (conj (publish_no_other_number m) (publish_no_other_name m))))).
 Qed.
 
+(* searchAll with a selector that returns a LAZY sequence: element i of the result shows the
+   records of match i, also when the outer sequence is materialised, reversed or sliced first *)
+Theorem C19_search_all_per_match : forall ms sel,
+  search_all_lazy ms sel CToList = map (lsel_eval sel) ms /\
+  search_all_lazy ms sel CPlain = search_all_lazy ms sel CToList /\
+  search_all_lazy ms sel CReverse = rev (search_all_lazy ms sel CToList) /\
+  search_all_lazy ms sel CTake1 = firstn 1 (search_all_lazy ms sel CToList) /\
+  search_all_lazy ms sel CSkip1 = skipn 1 (search_all_lazy ms sel CToList) /\
+  (forall i m, nth_error ms i = Some m ->
+     nth_error (search_all_lazy ms sel CToList) i = Some (lsel_eval sel m)).
+Proof. exact search_all_per_match. Qed.
+
+Theorem C19_lazy_selector_reads_own_match : forall m k g, ctx_get k (publish m) = Some g ->
+  (forall n, lsel_eval (LValue k n) m = repeat (VStr (fst (fst g))) n) /\
+  lsel_eval (LSpan k) m = [VInt (snd (fst g)); VInt (snd g)] /\
+  (forall thr, lsel_eval (LWhere k thr) m = if snd g >? thr then [VStr (Some [120])] else []).
+Proof. exact lsel_reads_published. Qed.
+
+(* regex 'a(.)' on "abac": [0].select($2.value) per match, materialised first *)
+Example C19_search_all_lazy_ex :
+  let m1 := {| m_whole := (Some [97; 98], 0, 2); m_groups := [(Some [98], 1, 2)]; m_named := [] |} in
+  let m2 := {| m_whole := (Some [97; 99], 2, 4); m_groups := [(Some [99], 3, 4)]; m_named := [] |} in
+  search_all_lazy [m1; m2] (LValue (KNum 2) 1) CToList = [[VStr (Some [98])]; [VStr (Some [99])]] /\
+  search_all_lazy [m1; m2] (LValue (KNum 2) 1) CReverse = [[VStr (Some [99])]; [VStr (Some [98])]].
+Proof. vm_compute. split; reflexivity. Qed.
+
 (* replaceBy/replace/split: no match, nothing changes; one match: prefix ++ replacement ++ suffix *)
 Theorem C19_replace_by_partial : forall s items repl cnt,
   replace_by s [] items cnt = s /\ replace_lit s [] repl cnt = s /\ regex_split s [] cnt = [Some s].
@@ -249,3 +275,4 @@ Print Assumptions C19_replace_count.
 Print Assumptions C19_characters.
 Print Assumptions C19_publish.
 Print Assumptions C19_compare.
+Print Assumptions C19_search_all_per_match.
